@@ -243,11 +243,16 @@ func (c *converter) syncPartial() {
 		delIngs[ing.Namespace+"/"+ing.Name] = true
 		delete(ingMap, ing.Namespace+"/"+ing.Name)
 	}
+	updIngs := make(map[string]bool, len(c.changed.IngressesUpd))
+	for _, ing := range c.changed.IngressesUpd {
+		updIngs[ing.Namespace+"/"+ing.Name] = true
+	}
 	for _, ing := range c.changed.IngressesAdd {
 		name := ing.Namespace + "/" + ing.Name
-		if delIngs[name] {
-			// Added and removed in the same batch: the lists do not tell which
-			// one happened last, so the current state is read from the cache.
+		if delIngs[name] || updIngs[name] {
+			// Added and also removed or updated in the same batch: the lists do
+			// not tell which one happened last, and the added object might be
+			// outdated, so the current state is read from the cache.
 			ingMap[name] = nil
 		} else {
 			ingMap[name] = ing
